@@ -1,6 +1,7 @@
 (* TypingTheorems.v — the statements exported to Properties/C04.v, the examples showing that their
    hypotheses are satisfiable, and the refutation witnesses (by vm_compute). *)
-From PG Require Import Common.Tactics Model.Typing Proofs.TypingBasics Proofs.TypingApply Proofs.TypingCompat.
+From PG Require Import Common.Tactics Model.Typing Proofs.TypingBasics Proofs.TypingApply Proofs.TypingCompat
+                       Proofs.TypingExtend.
 Local Open Scope Z_scope.
 
 (* ------------------------------------------------------------------------------------------ *)
@@ -127,4 +128,47 @@ Proof.
   exists (SUnion [SEnum [PInt 1; PStr (S_ 97)] (Mods false (Some (PBool true)) true);
                   SBool (Mods false (Some (PBool false)) true)] m0), (PFlt 64), (PBool true).
   split; vm_compute; reflexivity.
+Qed.
+
+(* ------------------------------------------------------------------------------------------ *)
+(** * Extension *)
+
+(* the hypotheses of the extension theorem are satisfiable: a variable tuple whose sizes meet the
+   base's, with a narrower element range *)
+Definition ex_child : spec := STuple [SInt (Some 1) None m0] 0 (Some 2) (Mods false (Some (PTuple [])) false).
+Definition ex_base : spec := STuple [SInt None (Some 5) (Mods true None false)] 2 None (Mods true None false).
+Example ex_good_child : good ex_child.
+Proof.
+  unfold good, ex_child. repeat split; try reflexivity;
+    unfold frozen_value_ok; simpl; intros; try discriminate.
+Qed.
+Example ex_base_ok : base_ok ex_base /\ wf ex_base.
+Proof.
+  unfold base_ok, ex_base. repeat split; try reflexivity;
+    unfold frozen_value_ok; simpl; intros; try discriminate.
+Qed.
+(* the extension fails here because the stored default () no longer fits; without it it succeeds *)
+Example ex_extend_stale_default : extend noq ex_child ex_base = Err TypeErr.
+Proof. vm_compute. reflexivity. Qed.
+Example ex_extend :
+  extend noq (STuple [SInt (Some 1) None m0] 0 (Some 2) m0) ex_base =
+  Ok (STuple [SInt (Some 1) (Some 5) m0; SInt (Some 1) (Some 5) m0] 2 (Some 2) m0).
+Proof. vm_compute. reflexivity. Qed.
+
+(* an Enum may extend a base of another class, which is never compatible with it (flag on) *)
+Lemma enum_base_refuted :
+  exists c b c', extend (Quirks false false false false true) c b = Ok c' /\
+                 compat (Quirks false false false false true) b c' = false.
+Proof.
+  exists (SEnum [PInt 1; PInt 2] m0), int_, (SEnum [PInt 1; PInt 2] m0).
+  split; vm_compute; reflexivity.
+Qed.
+
+(* a Union base: the child extends the matching candidate, but the union hands the value to an
+   earlier candidate (no flag) *)
+Lemma union_base_refuted :
+  exists c b c' v, extend noq c b = Ok c' /\ conforms c' v /\ total v = true /\ apply false b v = Err ValueErr.
+Proof.
+  exists (SBool m0), (SUnion [SInt (Some 5) (Some 5) m0; SBool m0] m0), (SBool m0), (PBool true).
+  repeat split; vm_compute; reflexivity.
 Qed.
